@@ -286,6 +286,23 @@ func c02Seq(a vh.Args, o *vh.Oracle, r *vh.Result, c *c02Case) error {
 
 func u(x uint64) string { return strconv.FormatUint(x, 10) }
 
+// c02Islands puts a few short non-zero stretches (1..max/2 bytes) into an all-zero blob.
+func c02Islands(rng *vh.Rand, blob []byte, max int) {
+	if len(blob) == 0 {
+		return
+	}
+	for k := 1 + rng.Intn(4); k > 0; k-- {
+		at := rng.Intn(len(blob))
+		l := 1
+		if rng.Bool() {
+			l = 1 + rng.Intn(max/2+1)
+		}
+		for i := at; i < at+l && i < len(blob); i++ {
+			blob[i] = byte(1 + rng.Intn(255))
+		}
+	}
+}
+
 func c02Par(a vh.Args, o *vh.Oracle, r *vh.Result, c *c02Case, attempts int) error {
 	blob := vh.UnHex(c.BlobHex)
 	desync.Digest = desync.SHA512256{}
@@ -379,7 +396,7 @@ func runC02(a vh.Args, o *vh.Oracle, r *vh.Result) error {
 		return c02Seq(a, o, r, &c)
 	}
 	rng := vh.NewRand(a.Seed)
-	nseq, npar := 150, 400
+	nseq, npar := 150, 320
 	if a.Tier == "thorough" {
 		nseq, npar = 1500, 12000
 	}
@@ -424,10 +441,15 @@ func runC02(a vh.Args, o *vh.Oracle, r *vh.Result) error {
 			}
 			blob = make([]byte, size)
 			shape = "zero-family"
-			if rng.Chance(1, 2) {
+			switch rng.Intn(3) {
+			case 0:
 				head := rng.Intn(size/2 + 1)
 				copy(blob, rng.Bytes(head))
 				shape = "zero-family-head"
+			case 1:
+				// small data islands inside the zero run: a look-ahead over "null, X, null" must not skip X
+				c02Islands(rng, blob, int(mx))
+				shape = "zero-family-islands"
 			}
 			attempts = 4
 		}
@@ -445,7 +467,7 @@ func runC02(a vh.Args, o *vh.Oracle, r *vh.Result) error {
 			return err
 		}
 	}
-	ntr := 100
+	ntr := 70
 	if a.Tier == "thorough" {
 		ntr = 6000
 	}
